@@ -95,6 +95,9 @@ func (c *SpecCtx) eval(n *SpecNode) (Value, types.Type) {
 		c.hyp = !c.hyp
 		l, _ := c.eval(n.L)
 		c.hyp = !c.hyp
+		if l == Value(tFalse) {
+			return tTrue, types.Typ[types.Bool] // the consequent may mention variables that do not exist here
+		}
 		r, _ := c.eval(n.R)
 		return Implies(l.(*Node), r.(*Node)), types.Typ[types.Bool]
 	case "iff":
@@ -846,6 +849,23 @@ func (c *SpecCtx) callExpr(x *ast.CallExpr, sn *SpecNode) (Value, types.Type) {
 			default:
 				return strPredicate("str.suffixof", "uf_strSuffix", b, a), types.Typ[types.Bool]
 			}
+		case "inscope":
+			// inscope(x): the local variable x exists at this program point
+			id2, ok := x.Args[0].(*ast.Ident)
+			if !ok {
+				c.fail("inscope needs an identifier")
+			}
+			found := false
+			func() {
+				defer func() { recover() }()
+				if _, _, ok := e.cellByName(id2.Name); ok {
+					found = true
+				}
+			}()
+			if found {
+				return tTrue, types.Typ[types.Bool]
+			}
+			return tFalse, types.Typ[types.Bool]
 		case "contents":
 			// contents(b): the backing array of slice b as a ghost byte sequence (index = b.off + i)
 			v, t := c.expr(x.Args[0], sn)
